@@ -121,13 +121,18 @@ TEMPLATES = [
     T([S_JOB, S_TOC], [A_TITLE, A_SECT], post=(lit('-x'),)),
     T([], [A_ID, A_TITLE2, A_SECT], pre=(lit('.'),)),
     T([S_ABOUT], [A_TITLE, A_SECT], pre=(var('jobname'), lit('_'))),
+    # static names that a later candidate spells again
+    T([(lit('a'),)], [A_ID, A_SECT]),
+    T([(lit('sect1'),), S_TOC], [A_SECT]),
 ]
 
 QUICK_COMBOS = [(cs, rs) for cs in ('default', 'none', 'blank') for rs in ('none', 'some')]
 THOROUGH_COMBOS = [(cs, rs) for cs in ('default', 'none', 'blank') for rs in ('none', 'some')]
 
 LONG_TEMPLATES = [T([], [A_SECT]), T([S_INDEX], [A_ID, (lit('sect'), var('num', 4))])]
-LONG_RESERVED = {'none': [], 'hit': ['sect105.html', 'sect0105.html']}
+LONG_RESERVED = {'none': [], 'hit': ['sect105.html', 'sect0105.html'],
+                 # 58 taken numbers in a row: one request needs 59 passes, still below the give-up bound
+                 'run': ['sect%d.html' % i for i in range(3, 61)] + ['sect%04d.html' % i for i in range(3, 61)]}
 LONG_EVENTS = [[None, None], ['a', None]]
 LONG_LEN = 120
 SPELLING_DEPTH = 3
@@ -529,7 +534,7 @@ def run(tier, seed, rep):
                 blocks.append({'tindex': ti, 'template': t, 'charsub': 'blank', 'reserved': RESERVED['some'],
                                'spelling': sp2, 'depth': SPELLING_DEPTH, 'events': events_for(t, tier, 'blank')})
     for ti, t in enumerate(LONG_TEMPLATES):
-        for rs in ('none', 'hit'):
+        for rs in ('none', 'hit', 'run'):
             for ev in LONG_EVENTS:
                 blocks.append({'tindex': 1000 + ti, 'template': t, 'charsub': 'default', 'reserved': LONG_RESERVED[rs],
                                'spelling': sp, 'depth': LONG_LEN, 'events': [ev], 'long': True})
@@ -551,7 +556,7 @@ def run(tier, seed, rep):
                        'charsub_x_reserved': ['%s/%s' % c for c in combos],
                        'configurations': len(TEMPLATES) * len(combos),
                        'events_per_request_max': max(len(b['events']) for b in blocks),
-                       'long_histories': {'configs': len(LONG_TEMPLATES) * 4, 'length': LONG_LEN},
+                       'long_histories': {'configs': len(LONG_TEMPLATES) * 6, 'length': LONG_LEN},
                        'other_spellings': {'configs': len(TEMPLATES) * 2, 'history_length': SPELLING_DEPTH}},
             'blocks': nblocks, 'spelling_variant': sp, 'max_depth_completed': depth, 'state_cap_hit': False,
             'floors': {'evaluations': 20000, 'issued': 10000, 'result_ValueError': 100, 'merged': 1000}}
